@@ -64,6 +64,9 @@ pub enum P {
     /// async: join!(req a, async { v = req b; spawn(notify n with v) }); event(a)   (a task that spawns in
     /// the very poll in which it may turn out to be abandoned)
     JoinSpawn(S, S, S),
+    /// async: st = stream a; first item -> event(a); the open stream is handed to a newly spawned task
+    /// (items -> event(a)); the original task goes on to await req c
+    StreamHandOff(S, S),
     /// `request(a).map(f).then_send(got)`
     ReqMap(S),
     /// `stream(a).map(f).then_send(got)`
@@ -152,7 +155,7 @@ impl P {
             P::ReqReq(a, b) | P::ReqStream(a, b) | P::StreamReq(a, b) | P::StreamStream(a, b)
             | P::Join(a, b) | P::Select(a, b) | P::SpawnJoin(a, b) | P::SpawnAfter(a, b) | P::Burst(a, b) | P::Channel(a, b)
             | P::Unordered(a, b) | P::JoinTwice(a, b) | P::MixedNotify(a, b) | P::AbortSpawned(a, b) | P::SelfAbort(a, b)
-            | P::StreamUntil(a, b) | P::SpawnChain(a, b) => vec![a, b],
+            | P::StreamUntil(a, b) | P::SpawnChain(a, b) | P::StreamHandOff(a, b) => vec![a, b],
             P::AbortChild(a, b, c) | P::IntoFuture(a, b, c) | P::JoinReq(a, b, c) | P::SelectJoinReq(a, b, c) | P::HandOff(a, b, c)
             | P::JoinSpawn(a, b, c) => vec![a, b, c],
             _ => vec![],
@@ -258,6 +261,7 @@ pub fn async_atoms() -> Vec<P> {
         P::SpawnChain(s0(), s0()),
         P::HandOff(s0(), s0(), s0()),
         P::JoinSpawn(s0(), s0(), s0()),
+        P::StreamHandOff(s0(), s0()),
         P::SelectJoinReq(s0(), s0(), s0()),
     ]
 }
